@@ -1,7 +1,6 @@
 //! E1: virtual-transport simulator around the real `Connection` and `CipherStream`.
 pub use vsim::{alloc, sim, util};
-mod c01;
-mod c02;
+use vsim::{c01, c02};
 mod c03;
 mod c04;
 mod c05;
